@@ -13,6 +13,7 @@ Definition chk_q (a b : Q) : bool := close a b.
 Definition chk_z (a b : Z) : bool := Z.eqb a b.
 Definition chk_b (a b : bool) : bool := Bool.eqb a b.
 Definition chk_unit (a b : unit) : bool := true.
+Definition chk_str (a b : String.string) : bool := String.eqb a b.
 Definition chk_hdr (a b : header) : bool :=
   chk_q (fst (h_spacing a)) (fst (h_spacing b)) && chk_q (snd (h_spacing a)) (snd (h_spacing b)) &&
   chk_q (h_slope a) (h_slope b) && chk_q (h_intercept a) (h_intercept b) && Z.eqb (h_rest a) (h_rest b).
